@@ -46,7 +46,24 @@ func getNextAndSplitIfAtEnd[K ~[]byte, O Ordering[K]](ctx context.Context, patch
 	if err != nil {
 		return Patch{}, NoDiff, false, err
 	}
-	for patchGenerator.to.atEnd() && patch.Level > 0 && diffType != RemovedDiff {
+	return splitWhileAtEnd(ctx, patchGenerator, patch, diffType, isMore)
+}
+
+// splitAndSplitIfAtEnd splits the current range Patch of |patchGenerator|. Like getNextAndSplitIfAtEnd, it avoids
+// emitting a range patch for the very last node in a level: when the children of the split node hold no changes,
+// split continues with the next change, which can be a range patch for that last node.
+func splitAndSplitIfAtEnd[K ~[]byte, O Ordering[K]](ctx context.Context, patchGenerator *PatchGenerator[K, O]) (patch Patch, diffType DiffType, isMore bool, err error) {
+	patch, diffType, isMore, err = patchGenerator.split(ctx)
+	if err != nil {
+		return Patch{}, NoDiff, false, err
+	}
+	return splitWhileAtEnd(ctx, patchGenerator, patch, diffType, isMore)
+}
+
+// splitWhileAtEnd splits |patch| for as long as it is a range patch for the very last node in a level.
+func splitWhileAtEnd[K ~[]byte, O Ordering[K]](ctx context.Context, patchGenerator *PatchGenerator[K, O], patch Patch, diffType DiffType, isMore bool) (Patch, DiffType, bool, error) {
+	var err error
+	for isMore && patchGenerator.to.atEnd() && patch.Level > 0 && diffType != RemovedDiff {
 		patch, diffType, isMore, err = patchGenerator.split(ctx)
 		if err != nil || !isMore {
 			return Patch{}, NoDiff, false, err
@@ -255,7 +272,7 @@ func SendPatches[K ~[]byte, O Ordering[K]](
 					}
 				}
 				if cmp >= 0 {
-					right, rDiffType, rok, err = r.split(ctx)
+					right, rDiffType, rok, err = splitAndSplitIfAtEnd(ctx, &r)
 					if err != nil {
 						return err
 					}
@@ -289,7 +306,7 @@ func SendPatches[K ~[]byte, O Ordering[K]](
 				}
 			} else {
 				// overlap, we need to split the range
-				right, rDiffType, rok, err = r.split(ctx)
+				right, rDiffType, rok, err = splitAndSplitIfAtEnd(ctx, &r)
 				if err != nil {
 					return err
 				}
